@@ -171,6 +171,67 @@ def u_head_mirrors_get(c):
     c.oblige("post/same-status", h["status"] == g["status"])
 
 
+@unit("C02", "slow-reader", [("tornado.http1connection", "HTTP1Connection.write"), ("tornado.http1connection", "HTTP1Connection.finish"), ("tornado.http1connection", "HTTP1Connection._finish_request"),
+                           ("tornado.web", "RequestHandler.flush"), ("tornado.web", "RequestHandler.finish")],
+      bounded="finite case analysis: 4 handler programs x 3 ways the connection ends x 3 body sizes x a transport that takes everything / 4 KiB per readiness event, through the real server")
+def u_slow_reader(c):
+    """the response the client reads is complete however slowly it reads: when the connection is to close after the response (Connection: close, HTTP/1.0) the close comes
+    after the last body byte has been handed to the transport - also when the handler flushed without waiting and the transport had taken only part of the data by then"""
+    import tornado.web as W
+    from pyvc.standin import httpserver as S, spec_http
+    from pyvc.standin.fakestream import WOULD_BLOCK
+    prog = c.choose("handler", ["write-finish", "write-flush-unawaited-finish", "content-length-write-flush-unawaited-write-finish", "write-flush-awaited-write-finish"])
+    ending = c.choose("connection", ["HTTP/1.1 close", "HTTP/1.0", "HTTP/1.1 keep-alive"])
+    size = c.choose("body-bytes", [10, 70000, 300000])
+    slow = c.choose("transport", ["takes-everything", "4KiB-per-event"])
+    part1, part2 = b"A" * size, b"B" * (size // 3)
+    expect = []
+
+    class H(W.RequestHandler):
+        async def get(self):
+            if prog == "write-finish":
+                self.write(part1); expect.append(part1)
+            elif prog == "write-flush-unawaited-finish":
+                self.write(part1); expect.append(part1)
+                self.flush()
+            elif prog == "content-length-write-flush-unawaited-write-finish":
+                self.set_header("Content-Length", str(len(part1) + len(part2)))
+                self.write(part1); expect.append(part1)
+                self.flush()
+                self.write(part2); expect.append(part2)
+            else:
+                self.write(part1); expect.append(part1)
+                await self.flush()
+                self.write(part2); expect.append(part2)
+            self.finish()
+    req = {"HTTP/1.1 close": b"GET / HTTP/1.1\r\nHost: h\r\nConnection: close\r\n\r\n", "HTTP/1.0": b"GET / HTTP/1.0\r\nHost: h\r\n\r\n",
+           "HTTP/1.1 keep-alive": b"GET / HTTP/1.1\r\nHost: h\r\n\r\n"}[ending]
+
+    async def drain(v, stream, server, res):
+        for _ in range(400):
+            if stream.closed() or not stream._write_buffer:
+                break
+            stream.pump()
+            await v.tick(2)
+        await v.settle()
+    accepts = () if slow == "takes-everything" else tuple([4096, WOULD_BLOCK] * 400)
+    r = S.run_server([req], make_app=lambda res: W.Application([(r"/", H)]), eof=False, after=drain, accepts=accepts)
+    c.cover("slow-reader/%s/%s" % (prog, slow))
+    body = b"".join(expect)
+    try:
+        resps = spec_http.read_responses(r.sent, ["GET"], r.closed)
+    except spec_http.Reject as e:
+        c.values = {"reject": str(e), "bytes_on_the_wire": len(r.sent), "closed": r.closed}
+        c.oblige("post/the-response-on-the-wire-is-complete-and-well-framed", False)
+        return
+    c.values = {"bytes_on_the_wire": len(r.sent), "closed": r.closed, "body_received": len(resps[0]["body"]) if resps else None, "body_written": len(body)}
+    c.oblige("post/the-response-on-the-wire-is-complete-and-well-framed", len(resps) == 1)
+    if len(resps) == 1:
+        c.oblige("post/the-body-is-the-concatenation-of-what-the-handler-wrote", resps[0]["body"] == body)
+    c.oblige("post/the-connection-closes-exactly-when-it-was-to-close", r.closed == (ending != "HTTP/1.1 keep-alive"))
+    c.oblige("post/no-server-error-logged", not r.errors_logged())
+
+
 def standin(tier, seed):
     import itertools
     import random
